@@ -1,7 +1,7 @@
 //! C11 — output depends only on document structure, not on incidental detail (metamorphic).
 
 use super::common::*;
-use crate::model::{decode_case, Domain};
+use crate::model::decode_case;
 use crate::refinf::infer_docs;
 use crate::runner::{hash_of, Failure, Property, Stats, Tapes, Tier};
 use crate::sut::{self, ReaderCfg, ReaderKind};
